@@ -207,6 +207,29 @@ example :
       (List.range 5).map (fun i => c.mem (OUT + i)) = [100, 101, 102, 103, 104] := by
   decide
 
+/-! ### Channel hand-off: `asyncSolidCache.FetchZ` → `squareSpacer.Scan` -/
+
+/-- **A buffer filled by a goroutine and signalled over a channel is read race-free and
+complete.**  Producer: plain write of the buffer, then `Done <- struct{}{}`; consumer:
+`<-Done`, then plain read.  Under every schedule there is no data race, and a consumer that
+has finished read the value the producer wrote. -/
+theorem handoff_race_free (v : Val) (sched : Schedule) :
+    let c := run (handoffProg v) Config.init sched
+    raceFree (handoffProg v) sched = true ∧ (done (handoffProg v) c 1 = true → (c.thr 1).out = v) := by
+  intro c
+  have I : HandInv v c := handInv_run v _ sched (handInv_init v)
+  refine ⟨List.isEmpty_iff.2 I.norace, fun hd => I.got ?_⟩
+  have h2 : (handoffProg v 1).length ≤ (c.thr 1).pc := of_decide_eq_true hd
+  have := I.pc1
+  simp [handoffProg] at h2
+  omega
+
+/-- Non-vacuity: the consumer is scheduled first (blocks), then everything runs. -/
+example :
+    let c := run (handoffProg 7) Config.init [1, 1, 0, 1, 0, 1, 1]
+    done (handoffProg 7) c 1 = true ∧ (c.thr 1).out = 7 := by
+  decide
+
 /-! ### `HeightMap.updateAt` from `AddSpheresSDF` workers -/
 
 /-- **With the callers holding a mutex, a cell ends up as the maximum of all proposed heights
